@@ -76,25 +76,25 @@ T = {
 # Round-4 (extension round) additions, appended to the level text of each property.
 EXT = {
  'C01': "",
- 'C02': " Round 4: clip/mask/nested-image buffers have exactly the layer's size for any nesting (size arguments of the Pixmap::new/Mask::new sites translated from source), pattern tiles / filter results / turbulence octaves proved to follow the document (the registered classes), box-blur / IIR / convolve-wrap loop bounds for all radii and sizes, checked subregion translation total for all regions, and a generated ledger of every allocation and panic site of resvg/src matched against proved or reviewed discharges.",
- 'C03': " Round 4: frame clause of the pre-pass (skeleton unchanged, nothing added, every removed reference lies on a cycle of length <= 2 of the original document) with the scan scopes derived from source; nested documents through image/feImage are bounded at depth 1 for every file system incl. self-including files (sub-document options derived from source); duplicate ids exercised through all correspondences.",
+ 'C02': " Round 4: clip/mask/nested-image buffers have exactly the layer's size for any nesting (size arguments of the Pixmap::new/Mask::new sites translated from source), pattern tiles / filter results / turbulence octaves proved to follow the document (the registered classes), box-blur / IIR / convolve-wrap loop bounds for all radii and sizes, checked subregion translation total for all regions, and a generated ledger of every allocation and panic site of resvg/src matched against proved or reviewed discharges. Second pass: 7 of 21 panic sites proved or computed (f32_bound over all 9 call sites), index arithmetic of lighting, displacement map, component transfer and box-gauss sizes in range for all inputs, layers at any nesting depth <= k^2 WH, layers inside nested images <= k^4 WH with image nesting depth 1 (imported from C03).",
+ 'C03': " Round 4: frame clause of the pre-pass (skeleton unchanged, nothing added, every removed reference lies on a cycle of length <= 2 of the original document) with the scan scopes derived from source; nested documents through image/feImage are bounded at depth 1 for every file system incl. self-including files (sub-document options derived from source); duplicate ids exercised through all correspondences. Second pass: filter lists (every url entry is an edge; drop rule of filter::convert) inside the termination theorems; the clip-path/mask chain walks of is_cacheable terminate for every graph incl. rho shapes (visited list), weaker guards refuted on the seed C01-12 shape; a generated table of every link-following site in parser/** must be covered by a classified mechanism (C03_link_sites_covered).",
  'C04': " Round 4: every produced filter / mask (for any user sequence, cache hits included) has a positive region, at least one primitive, positive sub-regions and non-negative stdDeviation; all four branches of resolve_primitive_region.",
- 'C05': " Round 4: hidden paths' paint servers are collected (paths carry visibility in the model), and the arms/guards of loop_over_paint_servers and of the four collection loops are source-derived tables proved equal to the model's node_paints.",
- 'C06': "",
- 'C07': " Round 4: xmlwriter/writer escaping modelled over byte lists from the xmlwriter source named in Cargo.lock and writer.rs's replace calls: the splice loop is replace_all, unescape(escape_text s) = s, escaped text is well-formed, attribute values never contain their closing quote (guarded + refuted pair for the registered unescaped-xml-char class).",
- 'C08': " Round 4: every id write site of writer.rs (13 definition, 11 reference sites, data-flow traced from source) writes prefix ++ id exactly once and the parser's reading of a written reference equals the written definition id; conditionally written numeric attributes: not written implies value = parser default (11 sites, conditions and defaults derived from source).",
- 'C09': "",
- 'C10': "",
- 'C11': " Round 4: cache-registration model (mask/clip step tables from mask.rs/clippath.rs, id generator): every node of the property's own non-rendered list converts to (cache, parent) unchanged, for any number of insertions at any depth, so the sequence of cache registrations and generated ids is unchanged; cache-reg correspondence against the real tree's resolved ids.",
+ 'C05': " Round 4: hidden paths' paint servers are collected (paths carry visibility in the model), and the arms/guards of loop_over_paint_servers and of the four collection loops are source-derived tables proved equal to the model's node_paints. Second pass: id programs: every control path that emits several nodes for one source element (image slice/no-slice, convert_path paint-order arms, use clip branch) is a generated straight-line program and emits the source id at most once; nested documents restart id generators and collections dedup by identity.",
+ 'C06': " Round 4: every ledger entry is a cell with a class (immutable after init, external input, keyed deterministically, not output-affecting, call-local, address equality; Mutable = undischarged) and the allowlist is `discharged (cell_class s)`; over a small machine with a store that persists across calls and is shared by threads: outputs are independent of the history (fresh process = used process) and of the schedule of N threads for ALL histories and schedules given the discharged ledger of the current source, with refuted converses for one mutable cell; order ledger (sort/dedup/binary_search/parallel-iterator sites of usvg, resvg, simplecss and fontdb at their Cargo.lock versions): stable sorts are unique, the CSS cascade needs and has a stable sort.",
+ 'C07': " Round 4: xmlwriter/writer escaping modelled over byte lists from the xmlwriter source named in Cargo.lock and writer.rs's replace calls: the splice loop is replace_all, unescape(escape_text s) = s, escaped text is well-formed, attribute values never contain their closing quote (guarded + refuted pair for the registered unescaped-xml-char class). Second pass: FromValue for f32 steps in source order: every accepted number is finite for all f64 texts (the opposite order is refuted), so write_num never sees a non-finite parsed number; text escape well-formedness at full strength incl. no `]]>` after fix 94b8b4d.",
+ 'C08': " Round 4: every id write site of writer.rs (13 definition, 11 reference sites, data-flow traced from source) writes prefix ++ id exactly once and the parser's reading of a written reference equals the written definition id; conditionally written numeric attributes: not written implies value = parser default (11 sites, conditions and defaults derived from source). Second pass: all 26 write_num sites (matrix order, per-segment coordinate counts) generated; write_num is idempotent (second trip changes nothing further) for every value and precision, lifted to lists, transforms and path data; every reachable mask/clip/pattern/gradient/filter is written exactly once for chains of any length; Units and Visibility tables round-trip.",
+ 'C09': " Round 4: a source-derived table of all 88 read sites of presentation attributes in parser/*.rs with the value type each is parsed with: every site reads a property with exactly the notation set of the spec table, any two sites of one property agree, the opacity family is read as Opacity everywhere, inherited properties are read through ancestors, every length read ends in convert_length; selector matching (simplecss match/specificity over usvg's Element impl), the stable specificity sort and the rule-list cascade as a function of (rule list, element position), tied by a selector correspondence; declarative winner of the cascade for all candidate sequences.",
+ 'C10': " Round 4: basic shapes as paths: builder scripts of points/polyline/polygon/line/circle/ellipse/rect and the convert_path dispatch transcribed from shapes.rs over a hand model of PathBuilder: polygon/polyline/line/ellipse/circle/rect equal their equivalent path data for all inputs (n points give n (+1) segments in order); viewport clip decision (get_clip_rect transcribed) and use->symbol = group(use transform + style) > viewport clip > group(translate . viewBox transform) > copy, at full strength after fix 214a8de; shape-path and use-symbol correspondences.",
+ 'C11': " Round 4: cache-registration model (mask/clip step tables from mask.rs/clippath.rs, id generator): every node of the property's own non-rendered list converts to (cache, parent) unchanged, for any number of insertions at any depth, so the sequence of cache registrations and generated ids is unchanged; cache-reg correspondence against the real tree's resolved ids. Second pass: every call site that converts child content in parser/*.rs (39 sites) is generated with the guard that precedes it and must pass the non-rendered filter first (an unguarded new site is a failed obligation); linked masks / clip paths in the cache model.",
  'C12': " Round 4: the abs-transform product invariant over clip-path / mask / pattern / feImage sub-trees at any depth (guarded by the registered pattern_pushed_transform class, with refuted witness), locality of the forest invariant, and the complete table of transform assignment sites of the parser as a source lock.",
- 'C13': " Round 4: position-dependent filter primitives translated from source (turbulence offset/sample, point and spot light mapping, canvas draw position): offset invariant, lights equivariant for every integer frame move, turbulence phase exact iff the region origin is the layer origin (guarded by the registered clamped-filter-region-origin class, with refuted witness from a real trace).",
- 'C14': " Round 4: the 8-bit layer composite: draw_pixmap's source-over rounds the exact rational over within 1/2 level (all 65 536 pairs, tied by a complete sweep of the real tiny-skia), nested layers and single draws are bit-exact, n overlapping draws through a layer differ from direct painting by at most (3n-1)/2 levels, attained at n = 2 (registered class layer-requantisation).",
+ 'C13': " Round 4: position-dependent filter primitives translated from source (turbulence offset/sample, point and spot light mapping, canvas draw position): offset invariant, lights equivariant for every integer frame move, turbulence phase exact iff the region origin is the layer origin (guarded by the registered clamped-filter-region-origin class, with refuted witness from a real trace). Second pass: checked subregion translation, feTile origin, feImage placement, feOffset scaling and the pattern shader transform translated from source and proved equivariant for arbitrary integer frame moves; sub-regions exact in Q with the f32 deviation named as the registered filter-region-ulp class.",
+ 'C14': " Round 4: the 8-bit layer composite: draw_pixmap's source-over rounds the exact rational over within 1/2 level (all 65 536 pairs, tied by a complete sweep of the real tiny-skia), nested layers and single draws are bit-exact, n overlapping draws through a layer differ from direct painting by at most (3n-1)/2 levels, attained at n = 2 (registered class layer-requantisation). Second pass: the layer bounding box is no longer an input: layer_of walks the tree bottom-up over C12's source-locked box model and contains every painted box (stroke boxes, filter regions, transformed children) for all trees at any depth, tied by a per-group correspondence on corpus dumps.",
  'C15': " Round 4: nesting to any depth: mask-on-mask factors stay in [0,1] and multiply, any stack of clip/mask/opacity factors never increases the result, exact u8 mask chains (apply_mask + luminance in binary32) never increase a channel and are 0 where any level has no coverage.",
  'C16': " Round 4: feConvolveMatrix keeps pixels valid for every kernel, divisor, bias, edge mode and window (arbitrary binary32 window sums incl. inf/NaN, by rounding monotonicity, no enumeration) over leaf definitions cut from convolve_matrix.rs; validity of whole chains by induction over arbitrary primitive lists incl. arithmetic, over and convolve steps and the on-demand colour-space conversions.",
- 'C17': "",
- 'C18': " Round 4: primitiveUnits=objectBoundingBox parameter scaling (stdDeviation, dx/dy, radius, displacement scale) equals the mapped user-space primitive for every box and attribute value, filter and mask conversion with their keyed caches modelled in source order: for any user sequence each user gets the definition resolved for its own box and equal ids mean equal definitions.",
+ 'C17': " Round 4: nested svg / symbol viewport translated from use_node.rs (use_node_size, viewbox_transform, get_clip_rect) and the percent-axis table of convert_length: per-dimension size rule (unit at DPI, percent of the parent viewport, missing = 100%), transform = to_transform of the viewBox onto the spec viewport, clip rectangle = the same rectangle, None iff overflow visible/auto or unsized or empty, meet inside / slice covers / none fills the clip; image placement cut from image.rs: box = natural-size viewBox mapped onto x/y/width/height at the ALIGNED position for every alignment, slice clips by the element rectangle; viewport-clip and image-box correspondences evaluated against the spec vocabulary alone.",
+ 'C18': " Round 4: primitiveUnits=objectBoundingBox parameter scaling (stdDeviation, dx/dy, radius, displacement scale) equals the mapped user-space primitive for every box and attribute value, filter and mask conversion with their keyed caches modelled in source order: for any user sequence each user gets the definition resolved for its own box and equal ids mean equal definitions. After fixes 4d36085/e3b9753 the parameter equivalence holds for ALL radius values (absent, negative, zero, one-zero, positive) without guard.",
  'C19': " Round 4: lookup by id over the forest with clip/mask/pattern sub-trees equals lookup on the renderable tree (an id that exists only inside a sub-tree is never found).",
- 'C20': "",
+ 'C20': " Round 4: fit_to_size never yields a zero or overflowing side for any FitTo; on every render_svg path the pixmap dimensions are valid; exit 0 with an image implies it was written with valid dimensions; the control skeleton of render_svg (four branches, their fallible steps and messages), the --export-area-page offset expression and main's exit status are generated from main.rs and the hand model is proved equal to the generated interpreter, so these theorems follow edits of main.rs; page offset = scaled origin truncated toward zero, within one pixel, for every fractional origin and zoom.",
 }
 
 
